@@ -7,6 +7,15 @@ sys.path.insert(0, os.path.dirname(os.path.dirname(os.path.abspath(__file__))))
 from zsa import prog, normalize
 facts = prog.extract(None)
 inv = normalize.make_inventory(facts)
+# subscript sites (function -> canonical keys) known when the trusted tables were confirmed
+from zsa import ivl, sweep
+P = prog.Program(facts)
+subs = {}
+for f in P.funcs:
+    ks = sorted({sweep.canon(f, node) for node, cnt, base in ivl.subscripts(f)})
+    if ks:
+        subs.setdefault(f.file, {})[f.name] = ks
+inv["subscripts"] = subs
 import subprocess
 try:
     inv["repo_head"] = subprocess.run(["git", "-C", "/repo", "rev-parse", "HEAD"], capture_output=True, text=True).stdout.strip()
